@@ -26,7 +26,8 @@ class Ctx:
     def __init__(self, pid, tier, seed):
         self.pid, self.tier, self.seed = pid, tier, seed
         self.t0 = time.time()
-        self.scratch = os.path.join(SHM, "verif", "%s-%s" % (pid, tier))
+        # a run against another tree (VERIF_REPO, seeded changes) must not share its scratch directory with a run on /repo
+        self.scratch = os.path.join(SHM, "verif", "%s-%s%s" % (pid, tier, "" if REPO == "/repo" else "-alt%d" % os.getpid()))
         shutil.rmtree(self.scratch, ignore_errors=True)
         os.makedirs(self.scratch)
         self.repo = os.path.join(self.scratch, "repo")
